@@ -14,7 +14,7 @@ LEVEL = "exploration"
 
 MENUS = [
     ("ytable", ["bdays", "noholiday", "weekendrow"]),
-    ("xindex", ["same", "earlier3", "later2", "everyother", "extra"]),
+    ("xindex", ["same", "earlier3", "later2", "everyother", "extra", "intraday"]),
     ("nan", ["none", "leadingX", "interiorX", "interiorY", "leadingY", "tieY"]),
     ("assets", [2, 1]),
     ("transformer", [None, "z-score", "yeo-johnson"]),
@@ -25,6 +25,7 @@ MENUS = [
     ("folds", [None, "two"]),
     ("delay", [1, 0]),
     ("era", ["2022", "2018"]),
+    ("latency", [0, 1800]),
 ]
 
 
@@ -61,6 +62,9 @@ def tables(cfg, ndays=14):
         xidx = idx[2:]
     elif xi == "everyother":
         xidx = idx[::2]
+    elif xi == "intraday":
+        # a second feature row a quarter of an hour after every date (inside a latency window of half an hour)
+        xidx = idx.union(idx + pd.Timedelta(minutes=15))
     else:
         xidx = idx.union(pd.DatetimeIndex([SUN, idx[-1] + pd.Timedelta(days=1)]))
     m = len(xidx)
@@ -105,7 +109,8 @@ def build(cfg):
         kw["folds"] = {"training-set": [idx[0].to_pydatetime(), idx[cut].to_pydatetime()],
                        "test-set": [idx[cut + 1].to_pydatetime(), idx[-1].to_pydatetime()]}
     env = TradingEnvXY(X.copy(), Y.copy(), transformer=cfg["transformer"], transformer_end=idx[7 if len(idx) <= 16 else len(idx) // 2], window=cfg["window"],
-                       stride=cfg["stride"], clip=cfg["clip"], spread=cfg["spread"], rate=rate, steps_delay=cfg["delay"], **kw)
+                       stride=cfg["stride"], clip=cfg["clip"], spread=cfg["spread"], rate=rate, steps_delay=cfg["delay"],
+                       latency=cfg.get("latency", 0), **kw)
     return env, X, Y, rate, idx
 
 
@@ -215,9 +220,9 @@ def run_config(cfg):
                 pass   # how env.X derives from the input table is C02's subject (look-ahead), not C18's: the statement is relative to the PUBLISHED table
         except Exception as ex:
             msgs.append("re-deriving env.X raised %r" % (ex,))
-    # with two folds the episodes alternate (train, test, train, test): what one episode leaves behind in the
+    # a single fold is played twice; with two folds the episodes alternate (train, test, train, test): what one episode leaves behind in the
     # transmitter must not reach the next one
-    folds = ["training-set", "test-set", "training-set", "test-set"] if cfg["folds"] == "two" else ["training-set"]
+    folds = ["training-set", "test-set", "training-set", "test-set"] if cfg["folds"] == "two" else ["training-set", "training-set"]
     nsteps = 0
     for fold in folds:
         try:
